@@ -186,8 +186,9 @@ namespace Givaro
     inline typename Montgomery<RecInt::ruint<K>>::Element& Montgomery<RecInt::ruint<K>>::axpy
     (Element& r, const Element& a, const Element& b, const Element& c) const
     {
-        mul(r, a, b);
-        return addin(r, c);
+        Element res; // r may be c
+        mul(res, a, b);
+        return add(r, res, c);
     }
 
     template<size_t K>
@@ -203,8 +204,9 @@ namespace Givaro
     inline typename Montgomery<RecInt::ruint<K>>::Element& Montgomery<RecInt::ruint<K>>::maxpy
     (Element& r, const Element& a, const Element& b, const Element& c) const
     {
-        mul(r, a, b);
-        return sub(r, c, r);
+        Element res; // r may be c
+        mul(res, a, b);
+        return sub(r, c, res);
     }
 
     template<size_t K>
@@ -220,9 +222,9 @@ namespace Givaro
     inline typename Montgomery<RecInt::ruint<K>>::Element&  Montgomery<RecInt::ruint<K>>::axmy
     (Element& r, const Element& a, const Element& b, const Element& c) const
     {
-        mul(r, a, b);
-        subin(r, c);
-        return r;
+        Element res; // r may be c
+        mul(res, a, b);
+        return sub(r, res, c);
     }
 
     template<size_t K>
